@@ -985,6 +985,16 @@ class RunProp(Prop):
         'traceback TEXT is abstracted to the identity of its exception (last line of the formatted traceback); TracebackContent formatting is not modelled',
         'detail names are split into (base, numeric suffixes) by the harness; base names are taken from a fixed alphabet',
         'exceptions raised by addOnException handlers themselves are outside the quantifier and not generated',
+        'readings fixed by the specs (see DESIGN D.5): an outcome "makes the run unsuccessful" when it is a failure, an error or an unexpected success '
+        '(testtools\' own classes; what a 2.7-style result makes of an unexpected success is that result\'s business); the no-downgrade clause is '
+        'claimed for the stock reporters - a user-inserted handler decides the outcome of its own class; the skip reason is demanded on a skip outcome; '
+        'the pre-test value of a patched attribute is what getattr on the patched object returned',
+        'exception messages, skip reasons and mismatch texts are encodable text (no lone surrogates: the traceback / reason contents encode strictly as '
+        'UTF-8) and exceptions can be formatted by the traceback module; exception classes and handler objects have honest __eq__ (values RETURNED by '
+        'stages and values of patched attributes may be hostile: those are generated)',
+        'addOnException handlers are registered before run() (handlers registered inside a stage accumulate over re-runs of the same instance: they are '
+        'deliberately not reset, see seed C05-c); fixtures attach their details during setUp (with fixtures >= 4 getDetails() returns a copy, so details '
+        'added to a fixture after useFixture() returned are not gathered)',
     ]
 
     def extract_tables(self, repo):
